@@ -14,6 +14,25 @@ for r in rows:
     c = [x.strip() for x in r.strip('|').split('|')]
     table += f"| {c[0]} | {c[2]} | {c[3]} |\n"
 table += f"\n{caught} of {len(rows)} confirmed seeded changes are caught by the registered quick check of their own property, {caught_other} more by the check of another property (a change usually breaks more than one), {len(rows) - caught - caught_other} are missed.\n"
-doc = rd('00_header.md') + rd('10_stance.md').rstrip('\n') + '\n\n' + rd('20_machinery.md').rstrip('\n') + '\n\n' + rd('30_properties.md').rstrip('\n') + '\n\n' + rd('40_tail.md').replace('@@MATRIX@@', table)
+# §3 summary: rule range and obligation count per property come from the committed evidence files
+import json, re
+def summary_cell(pid):
+    try:
+        ev = json.load(open(os.path.join(verif, 'evidence', pid + '.json')))
+    except Exception:
+        return None
+    rules = [x['rule'] for x in ev['coverage'].get('rules', [])]
+    nums = sorted({int(re.sub(r'\D', '', x.split('-R')[1])) for x in rules})
+    known = ev['coverage']['obligations'] - ev['coverage']['discharged']
+    cell = f"R{nums[0]}–R{nums[-1]} ({ev['coverage']['obligations']}"
+    if known:
+        cell += f", {known} known findings"
+    return cell + ")"
+tail_text = rd('40_tail.md')
+def fix_row(m):
+    cell = summary_cell(m.group(1))
+    return f"| {m.group(1)} | {cell} |" if cell else m.group(0)
+tail_text = re.sub(r"\| (C\d\d) \| R\d+–R\d+ \([^|]*\) \|", fix_row, tail_text)
+doc = rd('00_header.md') + rd('10_stance.md').rstrip('\n') + '\n\n' + rd('20_machinery.md').rstrip('\n') + '\n\n' + rd('30_properties.md').rstrip('\n') + '\n\n' + tail_text.replace('@@MATRIX@@', table)
 open(os.path.join(verif, 'DESIGN.md'), 'w').write(doc)
 print(len(doc.split('\n')), 'lines')
